@@ -396,7 +396,6 @@ func c11Equations(c *ctx) {
 	c.r.Floor(rule, 56)
 }
 
-
 func keys(m map[string]bool) []string {
 	var out []string
 	for k := range m {
